@@ -4,9 +4,9 @@ use crate::common::*;
 use crate::hist::*;
 use crate::tok::*;
 
-const KINDS: [&str; 6] = ["multiply", "like", "op_oo", "op_ob", "op_bo", "op_bb"];
+pub const KINDS: [&str; 6] = ["multiply", "like", "op_oo", "op_ob", "op_bo", "op_bb"];
 
-fn one(out: &mut Out, n: usize, k: usize, k2: usize, m: usize, kinds: &[&str]) {
+pub fn one(out: &mut Out, n: usize, k: usize, k2: usize, m: usize, kinds: &[&str]) {
     for ao in ORDERS {
         for bo in ORDERS {
             out.case(&format!("mul lhs={n}x{k}{} rhs={k2}x{m}{} {}", ord_ch(ao), ord_ch(bo), if k == k2 { "conformable" } else { "non-conformable" }));
